@@ -133,7 +133,9 @@ def judge(ctx, fn, t, rule_prefix='R04'):
     elif cl == 'undefined_common':
         exp_emit, posts = [], ['idle', 'same']
     elif cl == 'one_byte':
-        exp_emit, posts = [[b]], ['idle', 'same']
+        # the one-byte message is emitted now; a partial message kept alive would complete later and
+        # come out AFTER it although its bytes came first (not an in-order subsequence)
+        exp_emit, posts = [[b]], ['idle']
     else:
         exp_emit, posts = [], [('collect', b, [b])]
     # emission
